@@ -369,6 +369,43 @@ def gen_glue(rng, count):
     return out
 
 
+def gen_sequences(rng, groups):
+    """call sequences that make state kept between calls visible: within a group the same predecessor and round
+    (resp. related lists: prefixes, permutations, repeats, the empty list before and after) are used for
+    consecutive calls of all four functions, in several orders; every call is checked on its own"""
+    out = []
+    for g in range(groups):
+        pred, pred2 = rand_hash(rng, 'B'), rand_hash(rng, 'B')
+        rnd = rng.choice([0, 0, 1, 7, 2 ** 32 - 1, rng.randrange(2 ** 32 - 1)])
+        p = [rand_hash(rng) for _ in range(5)]
+        variants = [[], [p[0]], [p[1]], [p[0], p[1]], [p[1], p[0]], [p[0], p[1], p[2]], [p[0], p[1], p[2], p[3], p[4]], [p[0], p[0]]]
+        if g == 0:
+            order = [0, 1, 0, 3, 1, 4, 5, 3, 6, 7, 0]          # [] first, then longer ones, [] again
+        elif g == 1:
+            order = [6, 5, 3, 1, 0, 1, 2, 4, 7, 6]             # long first, shrinking, then siblings
+        else:
+            order = [rng.randrange(len(variants)) for _ in range(10)]
+        calls = []
+        for k in order:
+            v = list(variants[k])
+            calls.append((2, [v], pred, rnd))
+            if rng.random() < 0.5:
+                calls.append((0, [v], pred, rnd))
+            if rng.random() < 0.3:
+                calls.append((3, [[b58d(x).hex() for x in v]], pred, rnd))
+        # same list under another round / predecessor, and back
+        v = list(variants[rng.choice([1, 3, 5])])
+        calls += [(2, [v], pred, (rnd + 1) % 2 ** 32), (2, [v], pred2, rnd), (2, [v], pred, rnd), (2, [[]], pred2, rnd)]
+        # lists of lists built from related pieces, in both orders, with repeats
+        a, b = list(variants[rng.choice([1, 2, 3])]), list(variants[rng.choice([4, 5, 7])])
+        for ll in ([a, b], [b, a], [a], [a, b, []], [[], a, b], [], [a, a], [a, b]):
+            calls.append((1, [list(x) for x in ll], pred, rnd))
+        if g >= 2:
+            rng.shuffle(calls)
+        out += [(kind, lists, pr, rd, 'seq') for kind, lists, pr, rd in calls]
+    return out
+
+
 # ----------------------------------------------------------------------------------------------
 def search_real(ctx, lengths):
     """(B) with real digests on _reduce_operation_hashes; returns (n, hashes, got, want) of the first failure"""
@@ -389,7 +426,8 @@ def run(ctx: lib.Ctx) -> None:
                 'dense prefix of lengths plus lengths around every power of two in the quick tier, every length 0..600 (+ sampled up to 1500) '
                 'in the thorough tier); num: every length 0..600 with seeded leaves under a polynomial algebra; real: every length 0..600 with '
                 'random 32-byte hashes against hashlib; glue: the four functions on small lists with real Blake2b/base58 incl. malformed '
-                'base58 and out-of-range rounds. non-trivial = length >= 3 (padding or more than one level); distinct = distinct (stream, length/input)')
+                'base58 and out-of-range rounds, plus call sequences in one process with equal (predecessor, round) and related lists '
+                '(empty before/after, prefixes, permutations, repeats), each call checked against the padded-tree oracle. non-trivial = length >= 3 (padding or more than one level); distinct = distinct (stream, length/input)')
     reported = 0
 
     def report(what, rep, found=True):
@@ -489,19 +527,24 @@ def run(ctx: lib.Ctx) -> None:
         glue.append((doc['kind'], doc['lists'], doc['pred'], doc['round'], 'corpus'))
     for kind, lists, pred, rnd in vectors:
         glue.append((kind, lists, pred, rnd, 'vector'))
-    glue += gen_glue(rng, ctx.n(28, 600))
+    glue += gen_glue(rng, ctx.n(16, 600))
+    glue += gen_sequences(rng, ctx.n(3, 40))
+    history = []  # earlier calls of this process (state kept between calls shows up only after them)
     for kind, lists, pred, rnd, tag in glue:
         got, calls, err = glue_impl(kind, lists, pred, rnd)
         want = glue_spec(kind, lists, pred, rnd)
+        history.append([kind, lists, pred, rnd])
         flatn = sum(len(l) for l in lists)
         ctx.case(('glue', kind, json.dumps(lists), pred, rnd), nontrivial=flatn >= 3,
-                 kind=f'glue{kind}:{"malformed" if tag in ("checksum", "foreign", "round", "pred") else "valid"}',
+                 kind=f'glue{kind}:{"sequence" if tag == "seq" else "malformed" if tag in ("checksum", "foreign", "round", "pred") else "valid"}',
                  sample={'stream': 'glue', 'function': kind, 'lists': [len(l) for l in lists], 'round': rnd, 'result': got} if flatn == 5 else None)
         fname = ['operation_list_hash', 'operation_list_list_hash', 'block_payload_hash', '_reduce_operation_hashes'][kind]
         if want is not None and got != want:
             report(f'{fname} differs from the Tezos Merkle construction',
                    {'function': fname, 'lists': lists, 'predecessor': pred, 'round': rnd, 'got': got, 'want': want, 'error': err,
-                    'repro': f'import pytezos.crypto.hash as H; H.{fname}(...) with the arguments of this file'})
+                    'history': [h for h in history[:-1] if h[2] == pred or h[1] == lists][-12:],
+                    'repro': f'import pytezos.crypto.hash as H; after the calls in "history" (function index, lists, predecessor, round), '
+                             f'H.{fname}(...) with the arguments of this file; or ./check C31 --replay <this file>'})
         tables = oracle_tables(kind, lists, pred, rnd, calls)
         out = 'Reject' if got is None else f'(Ok {cbp(bytes.fromhex(got) if kind == 3 else str(got).encode())})'
         allcases.append((12 * sum(len(t) for t in tables) + 30,
@@ -558,6 +601,8 @@ def replay(ctx, doc) -> bool:
     if 'function' in doc and 'lists' in doc:
         names = ['operation_list_hash', 'operation_list_list_hash', 'block_payload_hash', '_reduce_operation_hashes']
         kind = names.index(doc['function']) if doc['function'] in names else int(doc['function'])
+        for hk, hl, hp, hr in doc.get('history', []):
+            glue_impl(hk, hl, hp, hr)
         got, _, err = glue_impl(kind, doc['lists'], doc.get('predecessor', ''), doc.get('round', 0))
         want = glue_spec(kind, doc['lists'], doc.get('predecessor', ''), doc.get('round', 0))
         print(f'replay: got={got!r} want={want!r} error={err}')
